@@ -73,6 +73,14 @@ IntOf(n, w)   == IF w \in DOMAIN IntWords THEN I(IntWords[w])
                  ELSE IF Default(n).t = "int" /\ w = DefWord(n) THEN Default(n) ELSE Bad
 FloatOf(n, w) == IF w \in DOMAIN FloatWords THEN Fl(FloatWords[w])
                  ELSE IF Default(n).t = "float" /\ w = DefWord(n) THEN Default(n) ELSE Bad
+(* Texts that a parser could be tempted to take apart (percent signs,       *)
+(* %(name)s / ${name} references to other keys, doubled percent signs,       *)
+(* comment and delimiter characters inside the value).  For an option that   *)
+(* is not typed by its default "the value given" in a source is the text as  *)
+(* written there: FileVal / EnvVal / CliVal give S(w) for them like for any  *)
+(* other word; they are named here so that cases and diagnoses can refer to  *)
+(* them.                                                                     *)
+LiteralWords == {"100%safe", "a%%b", "%(username)s", "${username}", "p%40ss:x=y", "a;b#c"}
 
 (* value of a text in the configuration file: booleans and numbers are     *)
 (* typed by the option's default; an ill-typed text is Bad                  *)
